@@ -5,6 +5,7 @@ from .. import env
 from .c01 import sym_bloom, bits_of, hv
 
 PROPERTY = "C05"
+CROSS_CHECK = True      # thorough: dumped assertion queries are re-decided by z3 4.8.12 and cvc5 1.0
 LEVEL = "model_checking"
 STUBS = ["array/bytes/bytearray/int/Struct/BytesIO shadows", "hex channel as an abstract pair (2 digits per byte)",
          "file path channel through the VFS model (open/MMap/resolve_path/is_valid_file)", "cuckoo: see C03"]
